@@ -36,8 +36,15 @@ def oracle(s, lines):
     if "q_first" not in s.meta:
         return None
     # locate the dumps: the first starts at the first 'raw' line, the last ends at the last 'bytes' line
-    idx = [i for i, l in enumerate(lines) if l.startswith("raw ")]
-    if len(idx) < 2:
+    # (a full dump is RAW, RAWL, DUMPX, W: it starts at the 'raw' line in front of a 'rawl' line)
+    idx = []
+    for i, l in enumerate(lines):
+        if l.startswith("rawl "):
+            j = i - 1
+            while j >= 0 and not lines[j].startswith("raw "):
+                j -= 1
+            idx.append(j)
+    if len(idx) < 2 or idx[0] < 0:
         return "dumps missing"
     first_start = idx[0]
     # first dump ends with its bytes line
